@@ -226,7 +226,40 @@ def run_wholename(ctx, rep, rid="R-C02-wholename"):
         r.note("the analyzer calls no text-dissecting method today (zero expected; positive example: seeded/C02-P)")
 
 
+def run_selfname(ctx, rep, rid="R-C02-selfname"):
+    """Only a function has a variable that bears its name (the return value).  A scope rule that also enters the name of a function block or
+    a program into that block's own scope accepts `b := Outer;` inside FUNCTION_BLOCK Outer.  In the undeclared-variable rule, an override
+    for a declaration that adds the declaration's *own* name (`node.name`) to the scope must be the override for FunctionDeclaration."""
+    from vlib.mir import loc_str
+    r = rep.rule(rid, "in the undeclared-variable rule only the override for a function adds the declaration's own name to its scope (the return variable); "
+                      "function blocks, programs and other declarations do not name a variable", floor=1, floor_what="overrides that add the declaration's own name")
+    n = 0
+    for b in sorted(ctx.prog.bodies.values(), key=lambda x: x.id):
+        im = b.f.get("impl") or {}
+        if b.f["crate"] != "ironplc_analyzer" or "rule_use_declared_symbolic_var" not in b.f["file"] or im.get("trait_def") != "ironplc_dsl::visitor::Visitor" or "::test" in norm(b.id):
+            continue
+        for c in b.calls():
+            last = (c.callee or c.u or "").split("::")[-1]
+            if last not in ("add", "try_add", "insert") or len(c.args) < 2:
+                continue
+            p = op_place(c.args[1])
+            if p is None:
+                continue
+            rt = b.root(p)
+            fs = [x for x in rt[1] if isinstance(x, list) and x[0] == "f"]
+            if rt[0] != 2 or len(fs) != 1 or fs[0][2] != "name" or not (fs[0][3] or "").endswith("Declaration"):
+                continue
+            n += 1
+            owner = fs[0][3].split("::")[-1]
+            inst = "%s|adds %s.name" % (b.f["name"], owner)
+            if owner == "FunctionDeclaration":
+                r.ok(inst, loc_str(b.f, c.loc), "the return variable of the function")
+            else:
+                r.finding(inst + "|not-a-variable", loc_str(b.f, c.loc), "the name of a %s is entered into its own scope as if it were a variable: a use of that name inside it is accepted (no P0015)" % owner)
+
+
 def run(ctx, rep):
+    run_selfname(ctx, rep)
     run_identity(ctx, rep)
     run_wholename(ctx, rep)
     run_enumunique(ctx, rep)
